@@ -9,6 +9,11 @@ Only property theorems and non-vacuity examples.  The mirror (`Store/BitOps.lean
 64-bit words (chunked big-endian reads, masks, shifts, remainder bytes, the extra byte of a right shift; `none` =
 panic); the driver mode `bitops` runs it against the real functions (`vharness bitops`, hook
 `nomt::verif_api::bit_ops`).  A byte string is a `List Nat` of bytes (`Bytes`), bit `p` is `bitOf l p` (Msb0).
+
+Registration (tools/props.py, for C16 and as an additional run for C01 — reading keys back goes through `get_key`):
+`{"cmd": "bitops", "mode": "bitops", "cases": {"quick": 40000, "thorough": 1000000}, "shards": {"quick": 4, "thorough": 16}}`,
+`{"cmd": "bitops-node", "mode": "bitops", "cases": {"quick": 1200, "thorough": 30000}, "shards": {"quick": 4, "thorough": 16}}`
+(both quick runs together ≈ 11 s wall on 4 shards).
 -/
 namespace Nomt.C16
 open Nomt.BitOps
@@ -357,6 +362,16 @@ example : ∃ pg', pg'.length = exSame.length ∧ bitOf pg' (8 * 14 + 4 + 8) = b
   exact ⟨pg', h2, h4 8 (by decide), h5 _ (by right; decide)⟩
 
 example : rawSeparators exBase 1 2 = some (List.replicate 8 0xA5, 7, 6) := by decide
+
+/-- **observation** — `BranchNode::set_prefix` calls `bitwise_memcpy(dst, 0, key, 0, prefix_len)` with the whole 32-byte key as
+source, i.e. OUTSIDE the contract whenever `prefix_len ≤ 192` (4 chunks where 1–3 are needed).  What happens then
+(instance: `prefix_len = 10`, destination slice of 8 bytes): no panic, the 10 prefix bits arrive, and the remaining 54
+bits of the slice are overwritten with key bits as well.  Harmless only because `set_prefix` is the first write into a
+fresh node and the separators are written afterwards. -/
+theorem T16_set_prefix_outside_contract :
+    ¬ MemcpyGuard 8 0 32 0 10 ∧
+    bitwiseMemcpy (List.replicate 8 0) 0 (List.replicate 32 0xFF) 0 10 = some (List.replicate 8 0xFF) ∧
+    memcpySpec (List.replicate 8 0) 0 (List.replicate 32 0xFF) 0 10 = [0xFF, 0xC0, 0, 0, 0, 0, 0, 0] := by decide
 
 /-- the unrepaired F14 sizing (`⌈diff/8⌉` rounded up to 8, ignoring the start bit) leaves the contract as soon as
 `start bit + diff` crosses a 64-bit boundary: 62 carried bits starting at bit 3 need 2 chunks, the old formula gave 1 -/
